@@ -411,6 +411,7 @@ type SpecDef struct {
 	Body   Expr
 	Rec    bool // recursive: emitted once as define-fun-rec, applied by name
 	Opaque bool // applied as an uninterpreted symbol unless the contract reveals it
+	IntResult bool // opaque symbol of sort Int (default Bool)
 }
 
 func (env *Env) child() *Env {
@@ -919,6 +920,9 @@ func callSMT(e *ECall, env *Env) Term {
 			return T(SInt, "(spec.%s %s)", d.Name, joinTerms(a))
 		}
 		if d.Opaque && !env.Reveal[d.Name] {
+			if d.IntResult {
+				return T(SInt, "(spec.%s %s)", d.Name, joinTerms(a))
+			}
 			return T(SBool, "(spec.%s %s)", d.Name, joinTerms(a))
 		}
 		c := &Env{Vars: map[string]Term{}, Defs: env.Defs, Pure: env.Pure, Sorts: env.Sorts, Reveal: env.Reveal, Ghost: env.Ghost}
